@@ -84,3 +84,26 @@ extern "C" void h_union(void) {
         else if (any) { double x = a.d[i] ? a.v[i] : b.v[i]; CEQ(ua[i].get(), x); CEQ(um[i].get(), x); CEQ(ux[i].get(), x); CEQ(un[i].get(), x); }
     }
 }
+
+// comparison functions: 1/0 per element, undefined propagates; a relation that holds exactly is reported as holding; a relation that fails by more
+// than the tolerance (relative to the magnitude of the left operand) is reported as failing; NE is the complement of EQ; strict comparisons are exact
+extern "C" void h_compare(void) {
+    Sym a = mksym(true), b = mksym(); const double eps = 1.0e-4;
+    UDQSet A = mkset("A", a), B = mkset("B", b);
+    UDQSet le = UDQBinaryFunction::LE(eps, A, B), ge = UDQBinaryFunction::GE(eps, A, B), eq = (UDQBinaryFunction::EQ)(eps, A, B), ne = UDQBinaryFunction::NE(eps, A, B);
+    UDQSet gt = UDQBinaryFunction::GT(A, B), lt = UDQBinaryFunction::LT(A, B);
+    for (int i = 0; i < 3; ++i) {
+        const bool def = a.d[i] && b.d[i];
+        CHECK(le[i].defined() == def && ge[i].defined() == def && eq[i].defined() == def && ne[i].defined() == def && gt[i].defined() == def && lt[i].defined() == def);
+        if (!def) continue;
+        const double x = a.v[i], y = b.v[i], mag = x < 0 ? -x : x;
+        CHECK(le[i].get() == 0.0 || le[i].get() == 1.0); CHECK(ge[i].get() == 0.0 || ge[i].get() == 1.0); CHECK(eq[i].get() == 0.0 || eq[i].get() == 1.0);
+        if (x <= y) CEQ(le[i].get(), 1.0);
+        if (x >= y) CEQ(ge[i].get(), 1.0);
+        if (x == y) CEQ(eq[i].get(), 1.0);
+        if (x - y > 2 * eps * mag) { CEQ(le[i].get(), 0.0); CEQ(eq[i].get(), 0.0); }          // fails by clearly more than the tolerance
+        if (y - x > 2 * eps * mag) { CEQ(ge[i].get(), 0.0); CEQ(eq[i].get(), 0.0); }
+        CEQ(ne[i].get(), 1.0 - eq[i].get());
+        CEQ(gt[i].get(), x > y ? 1.0 : 0.0); CEQ(lt[i].get(), x < y ? 1.0 : 0.0);
+    }
+}
